@@ -20,6 +20,9 @@ func NewJavaIdentifierListener() *JavaIdentifierListener {
 	nodes = nil
 	currentNode = core_domain.NewDataStruct()
 	currentMethod = core_domain.NewJMethod()
+	hasEnterClass = false
+	isOverrideMethod = false
+	imports = nil
 	return &JavaIdentifierListener{}
 }
 
